@@ -44,6 +44,7 @@ def run(repo, run, tier):
     bisection_vec(repo, run, tier, rule_id="C06.14")
     dense_lookup_is_the_interpolant(repo, run)
     piece_store_single_writer(repo, run)
+    richardson_pieces_are_this_steps(repo, run)
 
 
 # ------------------------------------------------------------------------------------------------
@@ -691,6 +692,41 @@ def dense_lookup_is_the_interpolant(repo, run):
 
 
 # ------------------------------------------------------------------------------------------------
+def richardson_pieces_are_this_steps(repo, run, rule_id="C06.18"):
+    """the pieces a Richardson wrapper hands to the dense output are those of the step just taken: every subdiv_step starts from fresh (empty) lists, unconditionally, and every
+    sub-step appends its piece, unconditionally.  Lists that survive a call under some condition carry the pieces of an EARLIER step into dense_output() whenever the
+    extrapolation stops at a coarser level than the step before (possible from depth 6 on): duplicates are appended and the new step's range is left uncovered."""
+    rid = run.rule(rule_id, "Richardson wrapper: subdiv_step empties both piece lists on every call and appends one piece per sub-step, with no condition on either", floor=2)
+    fn = repo.get(ITY, extract.RICH + ".subdiv_step")
+    run.analysed_fn(ITY, fn)
+    names = {}
+    for st in walk_no_nested(fn):
+        if isinstance(st, ast.Assign) and isinstance(st.value, ast.List) and not st.value.elts and len(st.targets) == 1 and is_self_attr(st.targets[0]):
+            names[st.targets[0].attr] = st
+    if len(names) < 2:
+        raise AnalysisError("subdiv_step: the two piece lists are not initialised as empty lists")
+    for attr, st in sorted(names.items()):
+        uncond = st in fn.body
+        run.judged(rid, "`%s` is executed on every call of subdiv_step" % src(st), ok=uncond)
+        if not uncond:
+            run.report(rule_id, ITY, st, "the piece list `self.%s` is emptied only under a condition: when it is not, dense_output() returns the pieces of an earlier sub-division - of "
+                                         "the previous STEP if this step's extrapolation stops at a coarser level - which are appended to the solution again (duplicate, unsorted "
+                                         "knots) while the range of the step just taken stays uncovered" % attr, text="piece list %s emptied conditionally" % attr)
+    loops = [st for st in fn.body if isinstance(st, ast.For)]
+    apps = [c for c in ast.walk(fn) if isinstance(c, ast.Call) and isinstance(c.func, ast.Attribute) and c.func.attr == "append" and is_self_attr(c.func.value) and c.func.value.attr in names]
+    if len(loops) != 1 or len(apps) < 2:
+        raise AnalysisError("subdiv_step: the sub-step loop / the appends of its pieces were not found")
+    for c in apps:
+        st = c
+        while not isinstance(st, ast.stmt):
+            st = st._parent
+        direct = st in loops[0].body
+        run.judged(rid, "`%s` runs for every sub-step" % src(st)[:60], ok=direct)
+        if not direct:
+            run.report(rule_id, ITY, st, "a sub-step's piece is appended only under a condition: the pieces handed to the dense output are then not those of the step just taken",
+                       text="piece append conditional")
+
+
 def piece_store_single_writer(repo, run, rule_id="C06.16"):
     """The lookup bisects `t_eval`: every piece has to enter the store through the ONE place that decides front / back from the stored end times (the single-piece
     branch of add_interpolant: the mirrored insert(0) / append pair, or the first-piece initialisation).  A list of pieces (the sub-steps of a Richardson step) is added
